@@ -465,6 +465,9 @@ def nodeRefStep (r : NRef) (t : List String) (obs : String) : NRef × String :=
         | none =>
           -- C15: silent peers are gone, with their routes
           if after.peers.any (fun q => q.timeout < r.now) then some "C15 a peer whose timeout has passed survived housekeeping"
+          -- C09 / C15: housekeeping removes a ready peer only when its timeout has passed (a handshake attempt that is given up takes only itself away)
+          else if before.peers.any (fun q => q.ready && q.timeout ≥ r.now && !(after.peers.any (fun q' => q'.addr = q.addr))) then
+            some s!"C09/C15 housekeeping removed a connected peer whose timeout has not passed ({(before.peers.filter (fun q => q.ready && q.timeout ≥ r.now && !(after.peers.any (fun q' => q'.addr = q.addr)))).map (·.addr)})"
           -- C09 / C12: housekeeping removes routes only when they expire or their peer goes
           else if before.claims.any (fun (p, rg, to) => to ≥ r.now && after.peers.any (fun q => q.addr = p) &&
               !(after.claims.any (fun (p', rg', _) => p' = p && rg' = rg))) then
